@@ -115,10 +115,13 @@ class DynamicSchedulePass( BasePass ):
         # check update_once first
         for x in scc:
           if x in onces:
+            # The cycle may run through generated net blocks, which have no host
+            hosts = top._dsl.all_upblk_hostobj
             raise UpblkCyclicError("update_once blocks are not allowed to appear in a cycle. \n - " + \
                             "\n - ".join( [
                               f"{y.__name__} ({'@update_once' if y in onces else '@update'} " \
-                              f"in 'top.{repr(top.get_update_block_host_component(y))[2:]}')"
+                              f"in 'top.{repr(hosts[y])[2:]}')" if y in hosts else
+                              f"{y.__name__} (generated net block)"
                               for y in scc] ))
 
         tmp_schedule = []
